@@ -288,9 +288,10 @@ func (g G) planC15() *Plan {
 			sloVariety: true, parkVariety: true},
 		wSSO: 16, wCallback: 18, wSLO: 8, wAttrQ: 10, wMeta: 8, wCert: 3, wReady: 1, wHealthz: 1,
 		wResume: 50, wFinish: 4, wComplete: 8, wPair: 12, wRotate: 1, wAdvance: 1,
-		devPct: 8, faultPcts: []int{0, 0, 0, 10}, hostVariety: true,
+		devPct: 8, faultPcts: []int{0, 0, 0, 10}, hostVariety: true, wRereg: 2, bodyFaultPct: 6,
 		minSteps: 8, maxSteps: 50, maxPre: 5, raceBias: true}
 	p := g.planMix("C15", o)
+	p.World.Shadow = true
 	p.World.SharedSP = g.chance("sharedSP", 60)
 	p.World.ParkWrites = g.chance("parkWrites", 60)
 	return p
